@@ -308,22 +308,23 @@ def check_index(ctx, case):
             req = {'method': 'thin', 'spacing': args['spacing'], 'offset': args['offset']}
         elif m in ('symmetric', 'anti_symmetric'):
             sg = 1 if m == 'symmetric' else -1
+            exp = [a.content[0]] + [None if (a.content[t] is None or a.content[T - t] is None) else 0.5 * (a.content[t] + sg * a.content[T - t]) for t in range(1, T)]
             import warnings
             with warnings.catch_warnings():
                 warnings.simplefilter('ignore')
                 res = getattr(a, m)()
-            exp = [a.content[0]] + [None if (a.content[t] is None or a.content[T - t] is None) else 0.5 * (a.content[t] + sg * a.content[T - t]) for t in range(1, T)]
             req = {'method': m}
         elif m == 'T_symmetry':
             b = build_corr(case['b'])
             sb = snap_obs(b)
+            # expected result first: when it is undefined everywhere the library cannot construct it and raises
+            exp = [None if (a.content[t] is None or b.content[T - 1 - t] is None) else (a.content[t] + args['parity'] * b.content[T - 1 - t]) / 2 for t in range(T)]
             import warnings
             with warnings.catch_warnings():
                 warnings.simplefilter('ignore')
                 res = a.T_symmetry(b, args['parity'])
             if snap_obs(b) != sb:
                 probs.append(('violation', 'argument-mutated', 'T_symmetry partner'))
-            exp = [None if (a.content[t] is None or b.content[T - 1 - t] is None) else (a.content[t] + args['parity'] * b.content[T - 1 - t]) / 2 for t in range(T)]
         elif m == 'item':
             res = a.item(args['i'], args['j'])
             exp = [None if x is None else np.asarray([x[args['i'], args['j']]]) for x in a.content]
